@@ -992,7 +992,11 @@ def _get_unit_data_from_expr(unit_expr, unit_symbol_lut):
         power = unit_expr.args[1]
         if not isinstance(power, Number):
             raise UnitParseError(f"Invalid unit expression '{unit_expr}'.")
-        conv = float(unit_data[0] ** power)
+        try:
+            conv = float(unit_data[0] ** power)
+        except TypeError:
+            # a negative number under a fractional power is complex
+            raise UnitParseError(f"Invalid unit expression '{unit_expr}'.")
         unit = unit_data[1] ** power
         return (conv, unit)
 
